@@ -336,6 +336,7 @@ impl Probe {
             "numeral" => self.op_numeral(req),
             "lookup" => self.op_lookup(req),
             "dump" => self.op_dump(req),
+            "evaldefs" => self.op_evaldefs(req),
             "load" => self.op_load(req),
             "defs" => self.op_defs(req),
             "defs_roundtrip" => self.op_defs_roundtrip(req),
@@ -664,6 +665,32 @@ impl Probe {
             Ok(v) => json!({"dump": v}),
             Err(p) => json!({"panic": p}),
         }
+    }
+
+    /// C08: re-evaluate every stored definition in its own loaded context.
+    fn op_evaldefs(&mut self, req: &J) -> J {
+        let ctx = match self.ctx(req) {
+            Ok(c) => c,
+            Err(e) => return json!({"harness_error": e}),
+        };
+        let mut out = Map::new();
+        let names: Vec<String> = ctx.registry.definitions.keys().cloned().collect();
+        for name in names {
+            let r = guarded(|| {
+                let expr = ctx.registry.definitions.get(&name).unwrap();
+                match ctx.eval(expr) {
+                    Ok(rink_core::Value::Number(n)) => json!({"number": num_json(&n)}),
+                    Ok(rink_core::Value::Substance(_)) => json!({"other": "substance"}),
+                    Ok(rink_core::Value::DateTime(_)) => json!({"other": "datetime"}),
+                    Err(e) => json!({"error": e.to_string()}),
+                }
+            });
+            out.insert(name, match r {
+                Ok(v) => v,
+                Err(p) => json!({"panic": p}),
+            });
+        }
+        json!({"values": out})
     }
 
     /// Parsed definitions of a text, for the monitors that need to see entries
